@@ -64,8 +64,12 @@ def check_case(case, ctx):
     if style == 'google':
         # wrap in a google block: a tag line then the docstring indented by four
         body = '\n'.join(('    ' + ln if ln.strip() else ln) for ln in doc.split('\n'))
-        text = 'Summary.\n\nExample:\n' + body
-        first_prompt_shift = 3
+        # the tag in its plain and its reST form ('Example::'), with or without an empty line under it
+        label = case.get('label', 'Example:')
+        gap = 1 if case.get('gap_after_label') else 0
+        # (characters that str.splitlines() breaks at but that do not end a line of the file may sit in the prose)
+        text = 'Summary{}.\n\n'.format(case.get('odd_char') or '') + label + '\n' + '\n' * gap + body
+        first_prompt_shift = 3 + gap
     xs, wl = parse(text, style, lineno)
     if len(xs) != 1:
         raise Violation('not_collected:{}'.format(len(xs)), 'docstring yields {} doctests ({})\n{}'.format(
@@ -129,6 +133,10 @@ def check_case(case, ctx):
                 num = int(m.group(1))
                 rel = di - first + 1
                 exp = (lineno + first_prompt_shift + di) if offset_linenos else rel
+                if not offset_linenos and style == 'google' and case.get('gap_after_label'):
+                    # where a google block with an empty first line "starts" is finding F7 (C08): doctest-relative numbers count
+                    # from there; only the file-relative numbers are asserted for such blocks
+                    exp = num
                 if num != exp:
                     raise Violation('linenos:number:' + ('file' if offset_linenos else 'doctest'),
                                     'line {!r} is numbered {} but it is line {} of the {}\n{}'.format(
@@ -152,6 +160,9 @@ def case_strategy(D, max_groups):
     c['lineno'] = D.choice([1, 1, 7, 95, 998])
     c['style'] = D.choice(['freeform', 'freeform', 'google'])
     c['config_offset'] = D.choice([None, None, True, False])
+    c['label'] = D.choice(['Example:', 'Example:', 'Example::', 'Doctest:', 'Examples::'])
+    c['gap_after_label'] = D.chance(1, 3)
+    c['odd_char'] = D.choice([None, None, None, '\x0c', '\x0b', '\x1c', '\x85', '\u2028', ' \x1e '])
     return c
 
 
